@@ -357,6 +357,18 @@ def _check_bitmap(run, world, folder, rc, mod, res, dyn, rx):
             ok = bool(outs) and all(o.kind == "return" for o in outs)
         run.ob("R-RESP", "%s#status[%s]" % (q, oc), ok,
                "status: %s" % outs, where(mod, rc.node))
+        if oc == "none":
+            # the two readings of one response agree on what a missing
+            # answer is: status refuses it, so must value (a bitmap has no
+            # 'absent' reading; check_bad_rsp relies on value raising)
+            vouts = t.run_attr("value")
+            okv = bool(vouts) and all(o.kind == "raise" and t.exc_isa(
+                o.val, MISSING) for o in vouts)
+            run.ob("R-RESP", "%s#value~status[none]" % q, okv,
+                   "status raises MissingResponse for a missing answer but "
+                   "value gives %s: a bitmap response cannot tolerate a "
+                   "missing answer and must say so through every reading"
+                   % vouts, where(mod, rc.node))
 
 
 def _check_status_loop(run, repo, world):
